@@ -83,7 +83,7 @@ class MappedText:
 def parse_vspec(path):
     spec = dict(unit=None, source=None, props_safety=[], props_internal=[], result='res', attrs=[],
                 requires=[], ensures=[], decreases=None, implextra=[], aftereach=[], regions=[], tail=None, tailbind=None, implas=None, entry=None, loops={}, closures={}, ats=[],
-                subs=[], sigsubs=[], path=path, notes=[], decls=[])
+                subs=[], subres=[], sigsubs=[], path=path, notes=[], decls=[])
     cur = None
 
     def start(key, rest):
@@ -169,6 +169,13 @@ def parse_vspec(path):
             if not m:
                 raise SliceError('%s: bad decl-line: %s' % (path, rest))
             spec['decls'].append(m.group(1).replace('\\"', '"').replace('\\\\', '\\'))
+            cur = None
+        elif key == 'subre':
+            # regular-expression substitution (a rewrite rule applied to every match): subre R.. /regex/ => "replacement with \\1"
+            m = re.match(r'\s*(R\d+[a-z]?)\s+/((?:[^/\\]|\\.)*)/\s*=>\s*"((?:[^"\\]|\\.)*)"\s*$', rest)
+            if not m:
+                raise SliceError('%s: bad subre-line: %s' % (path, rest))
+            spec['subres'].append((m.group(1), m.group(2), m.group(3).replace('\\"', '"')))
             cur = None
         elif key in ('sub', 'sig', 'subw', 'sub!'):
             # `sub!`: an essential substitution -- the replaced expression is ACCEPTED by the verifier but uninterpreted there (floating-point
@@ -903,7 +910,7 @@ class Weaver:
             file, segs, k = auto
             unit = 'auto.%s' % segs[-1].split()[-1]
             spec = dict(unit=unit, source=file + ' :: ' + ' :: '.join(segs), props_safety=['C02'], props_internal=[], result='res', attrs=['#[verifier::exec_allows_no_decreases_clause]'],
-                        requires=[], ensures=[], decreases=None, entry=None, loops={}, closures={}, ats=[], subs=[], sigsubs=[], path=None, decls=[],
+                        requires=[], ensures=[], decreases=None, entry=None, loops={}, closures={}, ats=[], subs=[], subres=[], sigsubs=[], path=None, decls=[],
                         notes=['auto-extracted helper without contract'], implextra=[], aftereach=[], regions=[], tail=None, tailbind=None, implas=None)
         else:
             spec = parse_vspec(os.path.join(self.verif, 'contracts', unit + '.vspec'))
@@ -1069,6 +1076,20 @@ class Weaver:
                 mt.replace(i, i + len(old), new)
                 pos = i + len(new)
             log.append((rid, '%s  =>  %s  (x%d)' % (norm(old), norm(new), cnt)))
+        for rid, rx_, rep_ in spec.get('subres', []):
+            n_ = len(re.findall(rx_, mt.text))
+            if n_ == 0:
+                log.append((rid, 'ANCHOR LOST: /%s/' % rx_))
+                continue
+            pos_ = 0
+            while True:
+                m_ = re.compile(rx_).search(mt.text, pos_)
+                if not m_:
+                    break
+                new_ = m_.expand(rep_)
+                mt.replace(m_.start(), m_.end(), new_)
+                pos_ = m_.start() + len(new_)
+            log.append((rid, '/%s/  =>  %s  (x%d)' % (rx_, rep_, n_)))
         apply_r8(mt, log)
         apply_r27(mt, log)
         apply_r33(mt, log)
